@@ -40,10 +40,33 @@ def rng(salt=""):
     return random.Random("%d/%s" % (seed(), salt))
 
 
-def run(cmd, timeout=600, env=None, cwd=None, inp=None, check=False, text=True):
+def run(cmd, timeout=600, env=None, cwd=None, inp=None, check=False, text=True, max_out=None):
+    """max_out: cap on the bytes a child may write to stdout (a file size limit on a temporary file, so a tool that never stops printing is
+    ended by SIGXFSZ -- returncode -25 -- instead of filling this process's memory)"""
     e = dict(os.environ)
     if env:
         e.update(env)
+    if max_out is not None:
+        import resource
+
+        class R:  # noqa
+            pass
+        with tempfile.TemporaryFile(dir=os.environ.get("VERIF_SCRATCH", "/var/tmp")) as of:
+            def lim():
+                resource.setrlimit(resource.RLIMIT_FSIZE, (max_out, max_out))
+            pr = subprocess.Popen(cmd, stdin=subprocess.PIPE, stdout=of, stderr=subprocess.PIPE, env=e, cwd=cwd, preexec_fn=lim)
+            try:
+                _, err = pr.communicate((inp.encode("utf-8", "replace") if isinstance(inp, str) else inp) if inp is not None else None, timeout=timeout)
+                R.returncode = pr.returncode
+            except subprocess.TimeoutExpired:
+                pr.kill()
+                _, err = pr.communicate()
+                R.returncode = 124
+            of.seek(0)
+            out = of.read(max_out)
+        R.stdout = out.decode("utf-8", "replace") if text else out
+        R.stderr = (err or b"").decode("utf-8", "replace") if text else (err or b"")
+        return R
     try:
         p = subprocess.run(cmd, input=inp, stdout=subprocess.PIPE, stderr=subprocess.PIPE,
                            timeout=timeout, env=e, cwd=cwd, text=text,
